@@ -262,7 +262,24 @@ def normalise_function(cur, ref):
     fine = stmt_names(cur.body, [])
     cooccur = lambda a, b: any(a in g and b in g for g in fine)
     full = votes.mapping(cooccur)
+    # names of nested functions / classes are never merged with anything else: two definitions of one name in a scope
+    # would shadow each other
+    defnames = {n.name for n in ast.walk(cur) if isinstance(n, FuncTypes + (ast.ClassDef,)) and n is not cur}
+    defnames |= {n.name for n in ast.walk(ref) if isinstance(n, FuncTypes + (ast.ClassDef,)) and n is not ref}
+    by_target = {}
+    for c, r in full.items():
+        by_target.setdefault(r, []).append(c)
+    for r, cs in by_target.items():
+        if len(cs) > 1 and (r in defnames or any(c in defnames for c in cs)):
+            for c in cs:
+                if c != r:
+                    del full[c]
     mapping = {c: r for c, r in full.items() if c != r}
+    # a definition name is not renamed onto a name that stays bound in the current function
+    for c, r in list(mapping.items()):
+        if (c in defnames or r in defnames) and r in bc and full.get(r, r) == r and r != c:
+            del mapping[c]
+            full.pop(c, None)
     if not mapping:
         return {}
     # avoid capture: a current bound name that stays (and was not itself matched to that reference name) but equals
